@@ -94,6 +94,11 @@ vh_ctx_t * vh_ctx_new(const scpi_command_t * cmds, size_t inbuf_len, int queue_l
 /* the application initialises the SAME context object and buffers again (instrument reset, interface re-opened): queued texts are released
  * first, the memory is scribbled, then SCPI_Init / SCPI_InitHeap run as in vh_ctx_new. Afterwards the context must behave like a new one. */
 void vh_ctx_reinit(vh_ctx_t * v);
+/* IEEE 488.2 device clear / client disconnected in mid-message: the application discards the pending input. The library has no call for it
+ * (a zero-length input call would EXECUTE the partial message), the public member is assigned: context->buffer.position = 0 */
+void vh_device_clear(vh_ctx_t * v);
+/* the application gives the context another input buffer at run time (other interface, bigger buffer): data, length, position are assigned */
+void vh_swap_input_buffer(vh_ctx_t * v, size_t new_len);
 void vh_ctx_free(vh_ctx_t * v);      /* drains the error queue first (releases texts) */
 void vh_ctx_clear_capture(vh_ctx_t * v);
 #define VH_OF(context) ((vh_ctx_t *) (context)->user_context)
